@@ -289,6 +289,7 @@ def replay(path) -> Outcome:
     if body["kind"] == "bounded":
         from . import bounded
         bounded.load_all()
+        import_repo()
         chk = bounded.CHECKS[body["where"]]
         msg = chk.run(inputs)
         return Outcome("ok") if msg is None else Outcome("fail", chk.name, msg)
